@@ -8,6 +8,7 @@ from the source through `Gen/LayoutsR`), an independent renderer of the publishe
 import Iodata.Lemmas.FmtR.GaussianLog
 import Iodata.Lemmas.FmtR.Vasp
 import Iodata.Lemmas.FmtR.Crd
+import Iodata.Lemmas.FmtR.ExtXyz
 import Iodata.Gen.LayoutsR
 import Iodata.Gen.Layouts
 
@@ -139,6 +140,69 @@ theorem crd_units (U : Crd.Units) (o : Crd.Obj) :
 example : Crd.Dom ⟨[" 1CCN FROM PSF OR PDB - OPTIMIZED".toList, "  DATE:     6/ 4/ 8".toList],
     [⟨1, ['T','H','R'], ['N'], ⟨true, 385076, -5⟩, ⟨true, 704232, -5⟩, ⟨false, 462858, -5⟩, ['M','A','I','N'], 1, ⟨false, 1400700, -5⟩⟩,
      ⟨9999, ['T','I','P','3'], ['O','H','2','X'], ⟨false, 99999999, -5⟩, ⟨true, 9999999, -5⟩, ⟨false, 0, -5⟩, ['W'], 9999, ⟨false, 99999999, -5⟩⟩]⟩ := by
+  decide +kernel
+
+/-! ## extended XYZ
+
+Full statement: every file of the ASE layout (pairs in any order, any declared columns) loads as the object it
+denotes.  Proved: the title-line layer — tokenisation (`extxyz_title_tokens`), `Lattice` (`extxyz_lattice_rows`),
+`Properties` column typing (`extxyz_properties_partial`).  Missing: the atom-record loop over the typed columns and
+the assembly of the whole object; both are executed in the correspondence (`load-spec:extxyz`, `load-corpus`) on
+generated and repository files, and checked against an independent writer in the direct search. -/
+
+/-- T1: the statements of `_convert_title_value`, `_parse_properties`, `_parse_title` (with
+`np.array(word.split(), dtype=float).reshape([3, 3]) * angstrom`, `energy`/`charge` as plain `float`) and `load_one` are
+the ones the model transcribes. -/
+theorem extxyz_source_shape : extxyzSkel = ExtXyz.expectedSkel := by decide +kernel
+
+/-- Title line: `key=value` pairs separated by blanks, values bare or in double quotes (any characters but `"` and
+`\` inside, blanks included), are cut into one token per pair with the quotes removed — `shlex.split` as used by
+`_parse_title`. -/
+theorem extxyz_title_tokens (ps : List (Str × Str × ExtXyz.Quote)) (h : ∀ p ∈ ps, ExtXyz.okPair p) :
+    ExtXyz.shlexSplit (ExtXyz.renderTitle ps) = some (ps.map fun p => p.1 ++ '=' :: p.2.1) :=
+  ExtXyz.shlexSplit_title ps h
+
+/-- `Lattice="a0 … a8"`: the nine printed numbers are stored in file order and `reshape([3, 3])` makes the cell
+vectors the rows: vector `i` is numbers `3i, 3i+1, 3i+2` (times `angstrom` in the driver/`crd_units` style). -/
+theorem extxyz_lattice_rows (tb : List (Str × Bool)) (d0 : ExtXyz.TitleData) (d : Nat) (a0 a1 a2 a3 a4 a5 a6 a7 a8 : Num)
+    (h : ∀ x ∈ [a0, a1, a2, a3, a4, a5, a6, a7, a8], x.exp = -(d : Int)) :
+    ExtXyz.applyPair tb d0 ("Lattice=".toList ++ ExtXyz.renderLattice d [a0, a1, a2, a3, a4, a5, a6, a7, a8])
+      = .ok { d0 with cell := some [a0, a1, a2, a3, a4, a5, a6, a7, a8] } ∧
+    ExtXyz.cellRows [a0, a1, a2, a3, a4, a5, a6, a7, a8] = [(a0, a1, a2), (a3, a4, a5), (a6, a7, a8)] := by
+  refine ⟨?_, rfl⟩
+  have hs : ExtXyz.splitEq [] ("Lattice=".toList ++ ExtXyz.renderLattice d [a0, a1, a2, a3, a4, a5, a6, a7, a8])
+      = some ("Lattice".toList, ExtXyz.renderLattice d [a0, a1, a2, a3, a4, a5, a6, a7, a8]) := by
+    have := ExtXyz.splitEq_spec "Lattice".toList (ExtXyz.renderLattice d [a0, a1, a2, a3, a4, a5, a6, a7, a8]) (by decide) []
+    simpa using this
+  unfold ExtXyz.applyPair
+  rw [hs]
+  have k1 : ("Lattice".toList = "Properties".toList) = False := by decide
+  have k2 : ("Lattice".toList = "energy".toList) = False := by decide
+  simp only [k1, k2, if_false, if_true, ExtXyz.splitWs_renderLattice d _ h, ExtXyz.mapOpt_pyFloat_render d _ h]
+  rfl
+
+/-- `Properties=…` (partial: declarations given as `name:type:ncols` triples joined by `:`): the value is cut back
+into its triples — the step on which the column typing rests; the typing itself (`Z` before `species`, `pos`/`masses`/
+`force` mapped, others to `extra` with the declared type and width) is the model's `propColumn`, exercised by the
+correspondence. -/
+theorem extxyz_properties_partial (parts : List Str) (hne : parts ≠ []) (h : ∀ t ∈ parts, ':' ∉ t) :
+    ExtXyz.splitOn ':' (List.intercalate [':'] parts) = parts :=
+  ExtXyz.splitOn_intercalate parts hne h
+
+/-- column typing on the declarations of the repository's fixtures: `species:S:1:pos:R:3:Z:I:1:force:R:3` gives
+`species` → `extra` (string), `pos` → `atcoords`, `Z` → `atnums`, `force` → `atgradient`; without `Z`, `species` gives
+the atomic numbers and `some_label:L:2` a two-column logical `extra` entry. -/
+example :
+    ExtXyz.parseProperties "species:S:1:pos:R:3:Z:I:1:force:R:3".toList
+      = .ok [⟨"extra".toList, "species".toList, 1, false, .str⟩, ⟨"atcoords".toList, [], 3, true, .pos⟩, ExtXyz.atnumsCol,
+             ⟨"atgradient".toList, [], 3, true, .force⟩] ∧
+    ExtXyz.parseProperties "species:S:1:pos:R:3:some_label:L:2".toList
+      = .ok [ExtXyz.atnumsCol, ⟨"atcoords".toList, [], 3, true, .pos⟩, ⟨"extra".toList, "some_label".toList, 2, true, .logical⟩] := by
+  decide +kernel
+
+/-- non-vacuity: a title with a quoted lattice and a quoted `pbc` is in the domain of `extxyz_title_tokens` -/
+example : ∀ p ∈ [("Lattice".toList, "7.6 0.0 0.0 0.0 7.6 0.0 0.0 0.0 7.6".toList, ExtXyz.Quote.dq),
+    ("Properties".toList, "species:S:1:pos:R:3".toList, .bare), ("pbc".toList, "T F T".toList, .dq)], ExtXyz.okPair p := by
   decide +kernel
 
 end Iodata.Props.C03Readers
